@@ -567,3 +567,278 @@ Qed.
 Example roundtrip_premises_ok :
   Forall nz [2; -(1#4)] /\ adder_len 2 (Some [1; 3#2]).
 Proof. split; [repeat constructor; unfold nz; intro H; vm_compute in H; discriminate | reflexivity]. Qed.
+
+(* ------------------------------------------------------------------ _set_scaling *)
+
+(* every factor entry fits the variable it belongs to (a0 / a1 are scalars or arrays of the variable's size) *)
+Definition fits (il ii : bool) (factors : list (nat * factor_t)) (lay : layout) : Prop :=
+  forall nm sz f, In (nm, sz) lay -> find (fun p => Nat.eqb (fst p) nm) factors = Some f ->
+    length (bcast (snd (scale01 il ii (snd f))) sz) = sz /\
+    (forall s0, fst (scale01 il ii (snd f)) = Some s0 -> length (bcast s0 sz) = sz).
+
+Lemma fill_length : forall arr s sz v, (s + sz <= length arr)%nat -> length (bcast v sz) = sz ->
+    length (fill arr (s, (s + sz)%nat) v) = length arr.
+Proof.
+  intros. unfold fill. simpl. replace (s + sz - s)%nat with sz by lia. apply length_splice. lia.
+Qed.
+
+Lemma fill_outside : forall arr s sz v i, (s + sz <= length arr)%nat -> length (bcast v sz) = sz ->
+    (i < s \/ s + sz <= i)%nat -> nth i (fill arr (s, (s + sz)%nat) v) 0 = nth i arr 0.
+Proof.
+  intros. unfold fill. simpl. replace (s + sz - s)%nat with sz by lia. apply nth_splice_outside; lia.
+Qed.
+
+Lemma fill_inside : forall arr s sz v j, (s + sz <= length arr)%nat -> length (bcast v sz) = sz -> (j < sz)%nat ->
+    nth (s + j) (fill arr (s, (s + sz)%nat) v) 0 = nth j (bcast v sz) 0.
+Proof.
+  intros. unfold fill. simpl. replace (s + sz - s)%nat with sz by lia. apply nth_splice_inside; lia.
+Qed.
+
+(* one pass of the loop body on the scaler / adder arrays *)
+Definition body_sc (il ii : bool) (factors : list (nat * factor_t)) (nm : nat) (r : nat * nat) (sc : list Q) : list Q :=
+  match find (fun p => Nat.eqb (fst p) nm) factors with
+  | Some f => fill sc r (snd (scale01 il ii (snd f)))
+  | None => sc
+  end.
+Definition body_ad (il ii : bool) (factors : list (nat * factor_t)) (nm : nat) (r : nat * nat) (ad : list Q) : list Q :=
+  match find (fun p => Nat.eqb (fst p) nm) factors with
+  | Some f => match fst (scale01 il ii (snd f)) with Some s0 => fill ad r s0 | None => ad end
+  | None => ad
+  end.
+
+Lemma loop_unfold : forall il ii nm r t factors sc ad,
+    set_scaling_loop il ii ((nm, r) :: t) factors sc ad
+    = set_scaling_loop il ii t factors (body_sc il ii factors nm r sc)
+                       (match ad with Some a => Some (body_ad il ii factors nm r a) | None => None end).
+Proof.
+  intros. simpl. unfold body_sc, body_ad.
+  destruct (find (fun p => Nat.eqb (fst p) nm) factors) as [[k f]|]; simpl; destruct ad; reflexivity.
+Qed.
+
+Section Body.
+Variables (il ii : bool) (factors : list (nat * factor_t)) (lay0 : layout).
+Hypothesis F : fits il ii factors lay0.
+
+Lemma body_sc_length : forall k sz start sc, In (k, sz) lay0 -> (start + sz <= length sc)%nat ->
+    length (body_sc il ii factors k (start, (start + sz)%nat) sc) = length sc.
+Proof.
+  intros. unfold body_sc. destruct (find _ factors) as [f|] eqn:E; auto.
+  apply fill_length; auto. apply (proj1 (F k sz f H E)).
+Qed.
+
+Lemma body_sc_outside : forall k sz start sc i, In (k, sz) lay0 -> (start + sz <= length sc)%nat ->
+    (i < start \/ start + sz <= i)%nat ->
+    nth i (body_sc il ii factors k (start, (start + sz)%nat) sc) 0 = nth i sc 0.
+Proof.
+  intros. unfold body_sc. destruct (find _ factors) as [f|] eqn:E; auto.
+  apply fill_outside; auto. apply (proj1 (F k sz f H E)).
+Qed.
+
+Lemma body_sc_inside : forall k sz start sc j, In (k, sz) lay0 -> (start + sz <= length sc)%nat -> (j < sz)%nat ->
+    nth (start + j) (body_sc il ii factors k (start, (start + sz)%nat) sc) 0
+    = match find (fun p => Nat.eqb (fst p) k) factors with
+      | Some f => nth j (bcast (snd (scale01 il ii (snd f))) sz) 0
+      | None => nth (start + j) sc 0
+      end.
+Proof.
+  intros. unfold body_sc. destruct (find _ factors) as [f|] eqn:E; auto.
+  apply fill_inside; auto. apply (proj1 (F k sz f H E)).
+Qed.
+
+Lemma body_ad_length : forall k sz start a, In (k, sz) lay0 -> (start + sz <= length a)%nat ->
+    length (body_ad il ii factors k (start, (start + sz)%nat) a) = length a.
+Proof.
+  intros. unfold body_ad. destruct (find _ factors) as [f|] eqn:E; auto.
+  destruct (fst (scale01 il ii (snd f))) as [s0|] eqn:E0; auto.
+  apply fill_length; auto. apply (proj2 (F k sz f H E)). auto.
+Qed.
+
+Lemma body_ad_outside : forall k sz start a i, In (k, sz) lay0 -> (start + sz <= length a)%nat ->
+    (i < start \/ start + sz <= i)%nat ->
+    nth i (body_ad il ii factors k (start, (start + sz)%nat) a) 0 = nth i a 0.
+Proof.
+  intros. unfold body_ad. destruct (find _ factors) as [f|] eqn:E; auto.
+  destruct (fst (scale01 il ii (snd f))) as [s0|] eqn:E0; auto.
+  apply fill_outside; auto. apply (proj2 (F k sz f H E)). auto.
+Qed.
+
+Lemma body_ad_inside : forall k sz start a j, In (k, sz) lay0 -> (start + sz <= length a)%nat -> (j < sz)%nat ->
+    nth (start + j) (body_ad il ii factors k (start, (start + sz)%nat) a) 0
+    = match find (fun p => Nat.eqb (fst p) k) factors with
+      | Some f => match fst (scale01 il ii (snd f)) with
+                  | Some s0 => nth j (bcast s0 sz) 0
+                  | None => nth (start + j) a 0
+                  end
+      | None => nth (start + j) a 0
+      end.
+Proof.
+  intros. unfold body_ad. destruct (find _ factors) as [f|] eqn:E; auto.
+  destruct (fst (scale01 il ii (snd f))) as [s0|] eqn:E0; auto.
+  apply fill_inside; auto. apply (proj2 (F k sz f H E)). auto.
+Qed.
+
+(* the loop over the variables that start at [start] never touches what lies before [start] and keeps lengths *)
+Lemma loop_before : forall lay start sc ad n,
+    (forall x, In x lay -> In x lay0) ->
+    length sc = n -> (forall a, ad = Some a -> length a = n) -> (start + total lay <= n)%nat ->
+    let r := set_scaling_loop il ii (ranges_from start lay) factors sc ad in
+    length (fst r) = n
+    /\ (forall a, ad = Some a -> exists a', snd r = Some a' /\ length a' = n
+                                         /\ forall i, (i < start)%nat -> nth i a' 0 = nth i a 0)
+    /\ (ad = None -> snd r = None)
+    /\ forall i, (i < start)%nat -> nth i (fst r) 0 = nth i sc 0.
+Proof.
+  induction lay as [|[k sz] t IH]; intros start sc ad n SUB L LA B; cbn zeta.
+  - simpl. repeat split; auto. intros a E. exists a. auto.
+  - cbn [ranges_from]. rewrite loop_unfold. simpl in B.
+    assert (INk : In (k, sz) lay0) by (apply SUB; left; auto).
+    assert (Lsc : length (body_sc il ii factors k (start, (start + sz)%nat) sc) = n)
+      by (rewrite body_sc_length; auto; lia).
+    specialize (IH (start + sz)%nat (body_sc il ii factors k (start, (start + sz)%nat) sc)
+                   (match ad with Some a => Some (body_ad il ii factors k (start, (start + sz)%nat) a) | None => None end)
+                   n (fun x I => SUB x (or_intror I)) Lsc).
+    destruct IH as [I1 [I2 [I3 I4]]].
+    + intros a E. destruct ad as [a0|]; inversion E; subst.
+      rewrite body_ad_length; auto. rewrite (LA a0 eq_refl). lia.
+    + lia.
+    + repeat split; auto.
+      * intros a E. subst ad. destruct (I2 _ eq_refl) as [a' [E1 [E2 E3]]]. exists a'. repeat split; auto.
+        intros i Hi. rewrite E3 by lia. apply body_ad_outside; auto. rewrite (LA a eq_refl). lia.
+      * intro E. subst ad. apply I3. reflexivity.
+      * intros i Hi. rewrite I4 by lia. apply body_sc_outside; auto. lia.
+Qed.
+
+Lemma lookup_start_le : forall t st nm s e, lookup nm (ranges_from st t) = Some (s, e) -> (st <= s)%nat.
+Proof.
+  induction t as [|[k2 z2] t IHt]; intros st nm s e LK; simpl in LK; [discriminate|].
+  destruct (Nat.eqb k2 nm); [inversion LK; lia|]. specialize (IHt _ _ _ _ LK). lia.
+Qed.
+
+(* _set_scaling: on the range of every variable the scaler holds that variable's scale1 (a1 * factor, factor / a1,
+   1 / a1 or a1 according to the vector) and the adder its scale0 ((a0 + offset) * factor or a0); variables
+   without factors keep what the arrays held (ones / zeros) *)
+Lemma set_scaling_loop_spec : forall lay start sc ad n nm s e j,
+    (forall x, In x lay -> In x lay0) -> NoDup (names lay) ->
+    length sc = n -> (forall a, ad = Some a -> length a = n) -> (start + total lay <= n)%nat ->
+    lookup nm (ranges_from start lay) = Some (s, e) -> (j < e - s)%nat ->
+    let r := set_scaling_loop il ii (ranges_from start lay) factors sc ad in
+    nth (s + j) (fst r) 0
+    = match find (fun p => Nat.eqb (fst p) nm) factors with
+      | Some f => nth j (bcast (snd (scale01 il ii (snd f))) (e - s)) 0
+      | None => nth (s + j) sc 0
+      end
+    /\ forall a, ad = Some a -> exists a', snd r = Some a' /\
+         nth (s + j) a' 0
+         = match find (fun p => Nat.eqb (fst p) nm) factors with
+           | Some f => match fst (scale01 il ii (snd f)) with
+                       | Some s0 => nth j (bcast s0 (e - s)) 0
+                       | None => nth (s + j) a 0
+                       end
+           | None => nth (s + j) a 0
+           end.
+Proof.
+  induction lay as [|[k sz] t IH];
+    intros start sc ad n nm s e j SUB ND L LA B LK J; cbn zeta; [simpl in LK; discriminate|].
+  cbn [ranges_from] in *. rewrite loop_unfold. simpl in B. simpl in LK.
+  assert (INk : In (k, sz) lay0) by (apply SUB; left; auto).
+  simpl in ND. apply NoDup_cons_iff in ND. destruct ND as [NI ND'].
+  assert (Lsc : length (body_sc il ii factors k (start, (start + sz)%nat) sc) = n)
+    by (rewrite body_sc_length; auto; lia).
+  set (sc1 := body_sc il ii factors k (start, (start + sz)%nat) sc) in *.
+  set (ad1 := match ad with Some a => Some (body_ad il ii factors k (start, (start + sz)%nat) a) | None => None end).
+  assert (LA1 : forall a, ad1 = Some a -> length a = n).
+  { intros a E. unfold ad1 in E. destruct ad as [a0|]; inversion E; subst.
+    rewrite body_ad_length; auto. rewrite (LA a0 eq_refl). lia. }
+  destruct (Nat.eqb_spec k nm) as [EQ|NE].
+  - inversion LK; subst s e nm. replace (start + sz - start)%nat with sz in * by lia.
+    pose proof (loop_before t (start + sz)%nat sc1 ad1 n (fun x I => SUB x (or_intror I))
+                            Lsc LA1 ltac:(lia)) as [B1 [B2 [B3 B4]]].
+    split.
+    + rewrite B4 by lia. unfold sc1. apply body_sc_inside; auto. lia.
+    + intros a E. subst ad. destruct (B2 _ eq_refl) as [a' [E1 [E2 E3]]]. exists a'. split; auto.
+      rewrite E3 by lia. apply body_ad_inside; auto. rewrite (LA a eq_refl). lia.
+  - pose proof (lookup_start_le _ _ _ _ _ LK) as GE.
+    destruct (IH (start + sz)%nat sc1 ad1 n nm s e j (fun x I => SUB x (or_intror I)) ND' Lsc LA1 ltac:(lia) LK J)
+      as [H1 H2].
+    split.
+    + rewrite H1. destruct (find (fun p => Nat.eqb (fst p) nm) factors); auto.
+      unfold sc1. apply body_sc_outside; auto; lia.
+    + intros a E. subst ad. destruct (H2 _ eq_refl) as [a' [E1 E2]]. exists a'. split; auto.
+      rewrite E2.
+      assert (OUT : nth (s + j) (body_ad il ii factors k (start, (start + sz)%nat) a) 0 = nth (s + j) a 0).
+      { apply body_ad_outside; auto. rewrite (LA a eq_refl). lia. lia. }
+      destruct (find (fun p => Nat.eqb (fst p) nm) factors) as [f|]; auto.
+      destruct (fst (scale01 il ii (snd f))); auto.
+Qed.
+
+End Body.
+
+Lemma nth_repeat_lt : forall (x : Q) n i, (i < n)%nat -> nth i (repeat x n) 0 = x.
+Proof. induction n; intros; try lia. destruct i; simpl; auto. apply IHn. lia. Qed.
+
+(* nonlinear root vector: scaler starts as ones, adder as zeros *)
+Lemma set_scaling_nl_spec : forall isinput do_adder lay factors nm s e j,
+    fits false isinput factors lay -> NoDup (names lay) ->
+    range_of lay nm = Some (s, e) -> (j < e - s)%nat ->
+    nth (s + j) (fst (set_scaling_nl isinput do_adder lay factors)) 0
+    = match find (fun p => Nat.eqb (fst p) nm) factors with
+      | Some f => nth j (bcast (snd (scale01 false isinput (snd f))) (e - s)) 0
+      | None => 1
+      end
+    /\ (do_adder = true -> exists a', snd (set_scaling_nl isinput do_adder lay factors) = Some a' /\
+         nth (s + j) a' 0
+         = match find (fun p => Nat.eqb (fst p) nm) factors with
+           | Some f => match fst (scale01 false isinput (snd f)) with
+                       | Some s0 => nth j (bcast s0 (e - s)) 0
+                       | None => 0
+                       end
+           | None => 0
+           end).
+Proof.
+  intros isinput do_adder lay factors nm s e j F ND R J. unfold set_scaling_nl, range_of, ranges in *.
+  pose proof (range_of_bounds lay nm (s, e) ND R) as [B1 B2]. simpl in B1, B2.
+  assert (LA : forall a, (if do_adder then Some (repeat 0 (total lay)) else None) = Some a -> length a = total lay).
+  { intros a E. destruct do_adder; inversion E. apply repeat_length. }
+  destruct (set_scaling_loop_spec false isinput factors lay F lay 0 (repeat 1 (total lay))
+                                  (if do_adder then Some (repeat 0 (total lay)) else None) (total lay) nm s e j
+                                  (fun x I => I) ND (repeat_length _ _) LA ltac:(lia) R J) as [H1 H2].
+  split.
+  - rewrite H1. destruct (find _ factors); auto. apply nth_repeat_lt. lia.
+  - intro E. subst do_adder. destruct (H2 _ eq_refl) as [a' [E1 E2]]. exists a'. split; auto.
+    rewrite E2. rewrite nth_repeat_lt by lia. reflexivity.
+Qed.
+
+(* linear root vector: no adder; the scaler starts as ones (solver ref present) or IS the nonlinear scaler array *)
+Lemma set_scaling_ln_spec : forall isinput solver_ref lay factors nl_scaler nm s e j,
+    fits true isinput factors lay -> NoDup (names lay) -> length nl_scaler = total lay ->
+    range_of lay nm = Some (s, e) -> (j < e - s)%nat ->
+    nth (s + j) (fst (set_scaling_ln isinput solver_ref lay factors nl_scaler)) 0
+    = match find (fun p => Nat.eqb (fst p) nm) factors with
+      | Some f => nth j (bcast (snd (scale01 true isinput (snd f))) (e - s)) 0
+      | None => if solver_ref then 1 else nth (s + j) nl_scaler 0
+      end.
+Proof.
+  intros isinput solver_ref lay factors nl_scaler nm s e j F ND LN R J. unfold set_scaling_ln, range_of, ranges in *.
+  pose proof (range_of_bounds lay nm (s, e) ND R) as [B1 B2]. simpl in B1, B2.
+  assert (L0 : length (if solver_ref then repeat 1 (total lay) else nl_scaler) = total lay)
+    by (destruct solver_ref; auto; apply repeat_length).
+  destruct (set_scaling_loop_spec true isinput factors lay F lay 0 _ None (total lay) nm s e j
+                                  (fun x I => I) ND L0 ltac:(intros; discriminate) ltac:(lia) R J) as [H1 _].
+  rewrite H1. destruct (find _ factors); auto. destruct solver_ref; auto. apply nth_repeat_lt. lia.
+Qed.
+
+(* what scale0 / scale1 are, in terms of the factor tuple (a0, a1, factor, offset) *)
+Lemma scale01_cases : forall a0 a1 factor offset isinput,
+    scale01 false isinput (a0, a1, Some (factor, offset))
+      = (Some (map (fun x => (x + offset) * factor) a0), map (fun x => x * factor) a1)
+    /\ scale01 false isinput (a0, a1, None) = (Some a0, a1)
+    /\ scale01 true isinput (a0, a1, Some (factor, offset)) = (None, map (fun x => factor / x) a1)
+    /\ scale01 true true (a0, a1, None) = (None, map (fun x => 1 / x) a1)
+    /\ scale01 true false (a0, a1, None) = (Some a0, a1).
+Proof. intros. repeat split; reflexivity. Qed.
+
+Example fits_ok : fits false true [(1%nat, ([2], [4; -8], Some (1#2, 3)))] [(0%nat, 3%nat); (1%nat, 2%nat)].
+Proof.
+  intros nm sz f I E. simpl in I. destruct I as [I|[I|[]]]; inversion I; subst; simpl in E; inversion E; subst.
+  split; [reflexivity|]. intros s0 H. inversion H; subst. reflexivity.
+Qed.
